@@ -202,6 +202,10 @@ class LoopingCall:
         self.starttime = self.clock.seconds()
         self.interval = interval
         self._runAtStart = now
+        # Counting (withCount) starts afresh with each start(): intervals which
+        # elapsed while the loop was stopped are not calls that should have
+        # occurred.
+        self._realLastTime = None
         if now:
             self()
         else:
